@@ -380,3 +380,21 @@ Proof.
   - exfalso. revert H Hd Sc. unfold client13, records, finished, key_from_chain, dc_verify. intros H Hd Sc.
     inv; cbn in Hd, Sc; try discriminate Hd; try discriminate Sc.
 Qed.
+
+(* ---- <= TLS 1.2 resumption: identities restored from a ticket / cached session --------------- *)
+Lemma server12_resume_identity O r s :
+  server12_resume O r = Ok (Some s) ->
+  (exists id, r_psk r = Some id) /\ r_rec_ok r = true /\
+  fin_ok O FIN_C12 (r_tr_fin r) (r_fin r) = true /\
+  s_srp_user s = r_ticket_srp r /\ s_client_chain s = r_ticket_chain r /\ s_server_chain s = None /\
+  (forall h, r_srp_user r = Some h -> r_ticket_srp r = Some h).
+Proof.
+  unfold server12_resume, records, finished. intros H.
+  destruct (r_psk r) as [id|] eqn:P; [|discriminate H].
+  destruct (r_srp_user r) as [u|] eqn:U; destruct (r_ticket_srp r) as [u'|] eqn:T; try discriminate H.
+  - destruct (list_eqb u u') eqn:E; [|discriminate H]. apply list_eqb_spec in E. subst u'.
+    inv. cbn. split; [eexists; reflexivity|]. repeat split; try reflexivity.
+    intros h Hh. injection Hh as Hh. subst h. reflexivity.
+  - inv. cbn. split; [eexists; reflexivity|]. repeat split; try reflexivity. intros h Hh. discriminate Hh.
+  - inv. cbn. split; [eexists; reflexivity|]. repeat split; try reflexivity. intros h Hh. discriminate Hh.
+Qed.
